@@ -705,6 +705,8 @@ def mk_event_map(srcs):
         s = event.Source(trigger=t, path=(f"s{i}",))
         em.add(s)
         objs.append(s)
+        if i % 2:
+            em.add(objs[i // 2])      # adding a source a second time is allowed and has no effect
     return em, objs
 
 
